@@ -11,24 +11,39 @@ from deeprob.spn.models.sklearn import SPNClassifier, SPNEstimator
 from deeprob.spn.algorithms.inference import log_likelihood, mpe
 
 
-def make_data(rs, n_rows, n_feat, n_classes, gaussian):
-    y = rs.randint(n_classes, size=n_rows)
+LABELS = None      # class label values of the current case (None: 0..K-1)
+
+
+def label_values(n_classes):
+    return np.arange(n_classes, dtype=np.float32) if LABELS is None else np.array(LABELS, dtype=np.float32)
+
+
+def make_data(rs, n_rows, n_feat, n_classes, gaussian, balance=None):
+    y = rs.choice(n_classes, size=n_rows, p=balance)
     y[:n_classes] = np.arange(n_classes)                       # every class present
     centers = rs.rand(n_classes, n_feat)
     if gaussian:
         X = centers[y] * 3 + rs.randn(n_rows, n_feat) * 0.7
     else:
         X = (rs.rand(n_rows, n_feat) < (0.15 + 0.7 * centers[y])).astype(np.float32)
-    return X.astype(np.float32), y.astype(np.float32)
+    return X.astype(np.float32), label_values(n_classes)[y].astype(np.float32)
 
 
-def fit_classifier(rs, n_feat, n_classes, gaussian):
-    X, y = make_data(rs, int(rs.choice([40, 80, 150])), n_feat, n_classes, gaussian)
+def fit_classifier(rs, n_feat, n_classes, gaussian, clf=None, balance=None):
+    X, y = make_data(rs, int(rs.choice([40, 80, 150])), n_feat, n_classes, gaussian, balance)
     dist = [Gaussian if gaussian else Bernoulli] * n_feat
-    clf = SPNClassifier(dist, learn_leaf='mle', split_rows='kmeans', split_cols='gvs' if not gaussian else 'rdc',
-                        min_rows_slice=int(rs.choice([20, 40])), min_cols_slice=2, random_state=int(rs.randint(1000)), verbose=False)
+    if clf is None:
+        clf = SPNClassifier(dist, learn_leaf='mle', split_rows='kmeans', split_cols='gvs' if not gaussian else 'rdc',
+                            min_rows_slice=int(rs.choice([20, 40])), min_cols_slice=2, random_state=int(rs.randint(1000)), verbose=False)
     clf.fit(X, y)
     return clf
+
+
+def label_of(leaf):
+    """the class a branch stands for, read off the PARAMETERS of its label leaf (not through the library's mpe)"""
+    if isinstance(leaf, Bernoulli):
+        return 1.0 if float(leaf.p) >= 0.5 else 0.0
+    return float(leaf.categories[int(np.argmax(np.asarray(leaf.probabilities, dtype=np.float64)))])
 
 
 def posterior_reference(ctx, clf, data):
@@ -106,7 +121,7 @@ def check_classifier(ctx, clf, rs, n_feat, n_classes, gaussian, rep, tag):
         labels = []
         for c in clf.spn_.children:          # the class each branch stands for = mode of its label leaf
             lab = [n for n in S.bfs_order(c) if n.scope == [n_feat]]
-            labels.append(float(mpe_label(lab[0])))
+            labels.append(label_of(lab[0]))
         for r in range(n_rows):
             srt = np.sort(ref[r])[::-1]
             if len(srt) > 1 and srt[0] - srt[1] < 1e-4:
@@ -116,7 +131,7 @@ def check_classifier(ctx, clf, rs, n_feat, n_classes, gaussian, rep, tag):
                 ctx.violation('c20-predict', f'predict gives class {pred[r]} but the largest class probability is that of class {labels[int(np.argmax(ref[r]))]} ({ref[r].tolist()})', replay=r2)
                 return
     # conditional sampling with given labels, full sampling with a requested number of rows
-    y = rs.randint(n_classes, size=5).astype(np.float32)
+    y = label_values(n_classes)[rs.randint(n_classes, size=5)].astype(np.float32)
     np.random.seed(int(rs.randint(2 ** 31 - 1)))
     try:
         Sx = np.asarray(clf.sample(y=y))
@@ -164,24 +179,54 @@ def check_estimator(ctx, rs, rep):
         ctx.violation('c20-estimator-sample', 'estimator sampling: out-of-domain values', replay=rep)
 
 
+def clf_case(ctx, k):
+    rs = np.random.RandomState(np_seed(ctx.sub_rng('clf', k)))
+    n_classes = [2, 3, 5, 2, 4][k % 5]
+    n_feat = int(rs.randint(2, 6))
+    gaussian = (k % 4 == 3)
+    global LABELS
+    LABELS = None
+    if n_classes >= 3 and k % 2 == 1:
+        # class labels that are not 0..K-1 (shifted, or with gaps): positions and label values must not be confused
+        LABELS = (list(range(1, n_classes + 1)) if k % 4 == 1 else sorted(int(v) for v in rs.choice(9, n_classes, replace=False)))
+        ctx.count('label-sets-not-0..K-1')
+    rep = dict(kind='c20', k=k, n_classes=n_classes, n_feat=n_feat, gaussian=gaussian, seed=ctx.seed, labels=LABELS)
+    try:
+        clf = fit_classifier(rs, n_feat, n_classes, gaussian)
+    except Exception as ex:
+        ctx.count('fit-did-not-return')
+        return
+    table = S.export_net(clf.spn_)[0]
+    key = hashlib.sha256(json.dumps(table, sort_keys=True).encode()).hexdigest()[:16]
+    ctx.case('classifier', nontrivial_key=key, sample=dict(rep, nodes=len(table)))
+    ctx.count(f'classes={n_classes}')
+    check_classifier(ctx, clf, rs, n_feat, n_classes, gaussian, rep, 'fit')
+    if ctx.n_new() == 0 and k % 2 == 0:
+        # histories on the SAME estimator object: queried, then refitted on data with another class balance (or its circuit
+        # re-weighted / trained further), then queried again: the facade must follow the circuit it wraps NOW
+        hist = ['fit', 'predict_proba']
+        try:
+            if k % 4 == 0:
+                bal = rs.dirichlet(np.ones(n_classes) * 0.5) * 0.8 + 0.2 / n_classes
+                fit_classifier(rs, n_feat, n_classes, gaussian, clf=clf, balance=bal / bal.sum())
+                hist.append('refit on data with another class balance')
+            else:
+                w = rs.dirichlet(np.ones(len(clf.spn_.weights))).astype(np.float32) * 0.9 + 0.1 / len(clf.spn_.weights)
+                clf.spn_.weights = (w / w.sum()).astype(np.float32)
+                hist.append('root weights of the wrapped circuit re-assigned')
+        except Exception as ex:
+            ctx.count('history-step-did-not-return')
+            return
+        ctx.count('histories:' + hist[-1])
+        check_classifier(ctx, clf, rs, n_feat, n_classes, gaussian, dict(rep, history=hist), 'history')
+        if ctx.n_new() >= 3:
+            return
+
+
 def run(ctx):
     n = 14 if ctx.tier == 'quick' else 200
     for k in range(n):
-        rs = np.random.RandomState(np_seed(ctx.sub_rng('clf', k)))
-        n_classes = [2, 3, 5, 2, 4][k % 5]
-        n_feat = int(rs.randint(2, 6))
-        gaussian = (k % 4 == 3)
-        rep = dict(kind='c20', k=k, n_classes=n_classes, n_feat=n_feat, gaussian=gaussian, seed=ctx.seed)
-        try:
-            clf = fit_classifier(rs, n_feat, n_classes, gaussian)
-        except Exception as ex:
-            ctx.count('fit-did-not-return')
-            continue
-        table = S.export_net(clf.spn_)[0]
-        key = hashlib.sha256(json.dumps(table, sort_keys=True).encode()).hexdigest()[:16]
-        ctx.case('classifier', nontrivial_key=key, sample=dict(rep, nodes=len(table)))
-        ctx.count(f'classes={n_classes}')
-        check_classifier(ctx, clf, rs, n_feat, n_classes, gaussian, rep, 'fit')
+        clf_case(ctx, k)
         if ctx.n_new() >= 3:
             return
     for k in range(4 if ctx.tier == 'quick' else 60):
@@ -197,16 +242,11 @@ def replay(rep):
     if r['kind'] != 'c20':
         print('estimator case: re-run the check with VERIF_SEED =', r.get('seed'))
         return True
-    import random
+    # the case (data, fit, history, queries) is regenerated from its seed and run through the same oracle, without the model
     from harness.common import Ctx
     ctx = Ctx('C20', 'quick', r['seed'])
-    rs = np.random.RandomState(np_seed(ctx.sub_rng('clf', r['k'])))
-    clf = fit_classifier(rs, r['n_feat'], r['n_classes'], r['gaussian'])
-    X = np.array([[np.nan if t is None else t for t in row] for row in r.get('X', [[0.0] * r['n_feat']])], dtype=np.float32)
-    try:
-        P = np.asarray(clf.predict_proba(X))
-    except Exception as ex:
-        print('predict_proba raised', type(ex).__name__, ex)
-        return False
-    print('shape', P.shape, 'row sums', P.sum(axis=1).tolist())
-    return P.shape == (len(X), r['n_classes']) and bool(np.all(np.abs(P.sum(axis=1) - 1) < 1e-4))
+    ctx.driver_ok = False
+    clf_case(ctx, r['k'])
+    for v in ctx.violations:
+        print('  ', v['what'][:300])
+    return not ctx.violations
